@@ -54,7 +54,9 @@ def gen_dir(rng, name, depth, budget, uniq):
     dirs = []
     if depth < 3:
         names = ['tests', 'ftests', 'sub', 'my-dir', '1x', '.git', 'node_modules', 'CVS',
-                 '__pycache__', 'skipme', 'a.b']
+                 '__pycache__', 'skipme', 'a.b',
+                 # mixed case: the sorted walk is by code point, 'Beta' < '_x' < 'alpha'
+                 'Beta', '_x', 'alpha', 'Alpha', 'ALPHA']
         for d in rng.sample(names, rng.randint(0, 3)):
             if budget[0] <= 0:
                 break
